@@ -185,7 +185,18 @@ def exOps : List Op :=
    .write (.add (900, 10, 20) none),      -- blank node: refused
    .commit]
 
-example : ∀ op ∈ (exOps.filter (fun o => o.plain)), op.plain = true := by decide
+/-- the same history without the blank-node write: the hypothesis of the theorems is satisfiable by a
+    non-trivial history, and the theorems apply to it -/
+def exPlain : List Op := exOps.filter (fun o => o.plain)
+
+example : exPlain.length = 8 ∧ ∀ op ∈ exPlain, op.plain = true := by decide
+
+example : DS.Equiv ((Remote.init exD true false false false).run exPlain).ep
+    (Spec.runWrites exD (writesOf exPlain)) :=
+  (remote_mirrors exD false false exPlain (by decide)).1
+
+example : (writesOf exPlain).length = 5 ∧
+    (Spec.runWrites exD (writesOf exPlain)).quads.length = 3 := by decide
 
 /-- autocommit off, no dirty reads: the `len` flushes the first two writes, the rollback discards
     the next two, the commit sends the last one; the refused write changes nothing -/
